@@ -7,7 +7,7 @@
   the handlers, foreign finalizer edits, handler/daemon completions, injected or genuine HTTP 422 on
   the JSON patch, restarts, with foreign writes between any two requests of one cycle.
 -/
-import Kopf.Lemmas.C06_Inv
+import Kopf.Lemmas.C06_Live
 namespace Kopf.C06
 
 /-! ## Foreign finalizers: never added, dropped or reordered -/
@@ -162,8 +162,8 @@ theorem decision_spec (i : In) :
   rcases i with ⟨a, b, c, d, e, f, g, h, j, k⟩
   exact decision_spec_bool a b c d e f g h j k
 
-/-- The queued fns, in program order (so the LAST one reflects the newest decision). -/
-theorem decision_fns (d : Decision) :
+-- the queued fns, in program order (so the LAST one reflects the newest decision) — by definition
+example (d : Decision) :
     d.fns = (if d.add then [Fn.block] else []) ++ (if d.removeUnneeded then [Fn.allow] else []) ++
             (if d.release then [Fn.allow] else []) := rfl
 
@@ -227,7 +227,6 @@ def w0 : State :=
   { gone := false, marked := false, fins := [], rv := 0, matchDel := true, matchDmn := false,
     delDone := false, dmnLive := false, dmnForever := false, mem := [], pending := none }
 
-def quiet : Env := { consistent := true, merge := false, otherChanging := false, otherDelays := false, delReset := false }
 
 /-- A rejected JSON patch (genuine conflict or injected 422) changes nothing on the server and
 leaves NOTHING in `memory.remaining_patch`: the framework's own finalizer edits are not carried. -/
@@ -269,15 +268,15 @@ theorem cycle_decides_anew {own : String} {s s' : State} {e : Env} (hr : Reach o
   · cases hs
     exact ⟨_, rfl, by simp [hm], rfl, rfl⟩
 
-/-- The guard constrains merge patches only. -/
-theorem guard_of_not_merge (s : State) (l : Label) (h : l ≠ .mergePatch) : Guard s l := by
+-- the guard constrains merge patches only (by definition)
+example (s : State) (l : Label) (h : l ≠ .mergePatch) : Guard s l := by
   cases l <;> first | trivial | exact absurd rfl h
 
 /-- The history of the former finding F5, now safe: the finalizer is added; deletion is requested;
 a label edit makes the deletion handler mismatch, the cycle queues the removal; a second label edit
 (the handler matches again) slips in before the JSON patch → 422; the next cycle decides anew — no
 removal — and the object keeps its finalizer while the handler has not finished. -/
-theorem conflict_on_release_redecided (own : String) :
+example (own : String) :
     run own w0 [.decide quiet, .jsonPatch false, .mark, .toggleDel, .decide quiet, .toggleDel,
                 .jsonPatch false, .decide quiet, .jsonPatch false] =
       some { w0 with marked := true, fins := [own], rv := 4 } := by
@@ -286,7 +285,7 @@ theorem conflict_on_release_redecided (own : String) :
     carry, ownFns]
 
 /-- …and of the former F5c: a rejected addition is not repeated on an object that no longer needs it. -/
-theorem conflict_on_add_redecided (own : String) :
+example (own : String) :
     run own w0 [.decide quiet, .toggleDel, .jsonPatch false, .decide quiet, .jsonPatch false] =
       some { w0 with matchDel := false, rv := 1 } := by
   simp [run, step, stepDecide, stepJson, w0, quiet, decision, inputs, Decision.fns,
@@ -319,11 +318,6 @@ theorem never_early_fails (own : String) :
 
 /-! ## Released eventually; added and removed with the matching -/
 
-/-- Nothing is left to wait for: the matching mandatory deletion handlers have finished and no
-daemon/timer task of the object runs (a mismatching daemon that is still being stopped also delays
-the release — the conservative side). -/
-def Settled (s : State) : Prop := (s.matchDel = true → s.delDone = true) ∧ s.dmnLive = false
-
 /-- A marked object that still holds the finalizer and has nothing left to wait for loses it in ONE
 undisturbed cycle (consistent state, nothing carried, no other handler's delay). -/
 theorem released_in_one_quiet_cycle (own : String) (s : State) (e : Env)
@@ -331,31 +325,128 @@ theorem released_in_one_quiet_cycle (own : String) (s : State) (e : Env)
     (hm : s.marked = true) (hown : own ∈ s.fins) (hset : Settled s)
     (hc : e.consistent = true) (hod : e.otherDelays = false) (hdr : e.delReset = false) :
     ∃ s', run own s (cycleLabels e) = some s' ∧ own ∉ s'.fins ∧ s'.mem = [] ∧ s'.pending = none ∧
-          (s'.fins = [] → s'.gone = true) := by
-  refine ⟨afterCycle own s e, cycle_run own s e hg hp, ?_⟩
-  have hb := release_bool s.matchDel s.matchDmn s.delDone s.dmnForever e.otherChanging hset.1
-  have hin : inputs own s e = inputsB s.matchDel s.matchDmn s.delDone false s.dmnForever true true true true e.otherChanging false false := by
-    rw [inputs_eq, hset.2, hm, hc, hod, hdr, hmem]; simp [hown]
-  obtain ⟨pre, hpre⟩ := fns_snoc_allow _ hb.1 hb.2
-  have htarget : own ∉ applyFns own (s.mem ++ (decision (inputs own s e)).fns) s.fins := by
-    rw [hin, hpre, ← List.append_assoc]
-    intro hmem'
-    have := (own_mem_applyFns_snoc own _ Fn.allow s.fins).mp hmem'
-    cases this
-  have hne : applyFns own (s.mem ++ (decision (inputs own s e)).fns) s.fins ≠ s.fins := by
-    intro heq; rw [heq] at htarget; exact htarget hown
-  have hac : afterCycle own s e =
-      { s with dmnLive := s.dmnLive || (!s.marked && s.matchDmn && !s.dmnForever),
-               delDone := if (decision (inputs own s e)).handlersRun then s.delDone && !e.delReset else s.delDone,
-               fins := applyFns own (s.mem ++ (decision (inputs own s e)).fns) s.fins, rv := s.rv + 1,
-               pending := none, mem := [],
-               gone := s.marked && (applyFns own (s.mem ++ (decision (inputs own s e)).fns) s.fins).isEmpty } := by
-    simp only [afterCycle, hne, if_false]
-  rw [hac]
-  refine ⟨htarget, rfl, rfl, ?_⟩
-  intro hnil
-  simp only at hnil
-  simp [hm, hnil]
+          (s'.fins = [] → s'.gone = true) :=
+  ⟨afterCycle own s e, cycle_run own s e hg hp, afterCycle_released own s e hmem hm hown hset hc hod hdr⟩
+
+/-! ### … and such a cycle does come (the wake-up layer `LState`/`lstep`, see the model)
+
+  `LReachG`: any run of the wake-up layer — events are consumed one per cycle, a cycle may leave early as
+  inconsistent only while another event is queued, cycles that returned delays sleep and touch — under
+  `LGuard`: no HTTP 422 injected without a real write, and no patch whose dict content changes nothing
+  (open finding F7, `lost_wakeup_witness`). Restarts, foreign writes, conflicts, completions are free. -/
+
+/-- The wake-up layer only schedules the base LTS: every safety theorem above holds of its runs. -/
+theorem wakeup_layer_refines {own : String} {s : LState} (h : LReach own s) : Reach own s.base :=
+  lreach_base h
+
+/-- No lost wake-up: an object that waits for its release (exists, marked, holds the own finalizer) always
+has an enabled step of the operator ahead — a request of the cycle in flight, a cycle for a queued event, or
+the touch that ends the sleep. -/
+theorem no_lost_wakeup {own : String} {s : LState} (h : LReachG own s) (hw : Waiting own s.base) :
+    ∃ l, LLabel.isOperator l = true ∧ (lstep own s l).isSome = true := by
+  have hI := linv_reach h
+  cases hp : s.base.pending with
+  | some p =>
+    cases hm : p.merge
+    · obtain ⟨s2, h2, _⟩ := lstep_json_enabled (own := own) hw.1 hp hm
+      exact ⟨.base (.jsonPatch false), rfl, by rw [h2]; rfl⟩
+    · obtain ⟨s1, h1, _⟩ := lstep_merge_enabled (own := own) hw.1 hp hm
+      exact ⟨.base .mergePatch, rfl, by rw [h1]; rfl⟩
+  | none =>
+    rcases hI.j1 hp hw with hev | hsl
+    · obtain ⟨s', hrun, _⟩ := lcycle_quiet own s hw.1 hp hev
+      refine ⟨.base (.decide quiet), rfl, ?_⟩
+      simp only [lrun] at hrun
+      cases hst : lstep own s (.base (.decide quiet)) with
+      | none => simp [hst] at hrun
+      | some _ => rfl
+    · refine ⟨.touch, rfl, ?_⟩
+      have hpn : s.base.pending.isNone = true := by rw [hp]; rfl
+      simp [lstep, hsl, hpn, hw.1]
+
+/-- Released under fairness: from EVERY reachable state in which the object waits for its release and
+nothing is left to wait for, the operator's own enabled steps — at most five: the rest of the cycle in
+flight, the touch that ends a sleep, one cycle that sees a consistent state — take the finalizer off.
+(Fairness = these steps are eventually taken and one cycle eventually sees a consistent state; each
+inconsistent cycle consumes a queued event, so only finitely many can precede it without new events.) -/
+theorem released_under_fairness {own : String} {s : LState} (h : LReachG own s)
+    (hw : Waiting own s.base) (hset : Settled s.base) :
+    ∃ ls s', ls.length ≤ 5 ∧ (∀ l ∈ ls, LLabel.isOperator l = true) ∧
+      lrun own s ls = some s' ∧ own ∉ s'.base.fins := by
+  have hI := linv_reach h
+  -- after the JSON patch of the cycle in flight
+  have afterJson : ∀ (t : LState), LInv own t → t.base.gone = false → t.base.marked = true → Settled t.base →
+      ∀ p, t.base.pending = some p → p.merge = false →
+      ∃ ls s', ls.length ≤ 4 ∧ (∀ l ∈ ls, LLabel.isOperator l = true) ∧ lrun own t ls = some s' ∧ own ∉ s'.base.fins := by
+    intro t hIt hgt hmt hst p hp hm
+    obtain ⟨s2, h2, hreq, hpn, hgone⟩ := lstep_json_enabled (own := own) hgt hp hm
+    have hI2 : LInv own s2 := linv_step hIt (show LGuard (.base (.jsonPatch false)) from rfl) h2
+    by_cases hown : own ∈ s2.base.fins
+    · have hw2 : Waiting own s2.base := ⟨hgone hown, by rw [hreq.1]; exact hmt, hown⟩
+      obtain ⟨ls, s', hlen, hop, hrun, hrel⟩ := release_from_idle own s2 hI2 hpn hw2 (settled_of_sameReq hreq hst)
+      refine ⟨.base (.jsonPatch false) :: ls, s', by simp; omega, ?_, ?_, hrel⟩
+      · intro l hl
+        rcases List.mem_cons.mp hl with rfl | hl
+        · rfl
+        · exact hop l hl
+      · simp only [lrun, h2, Option.bind_some]; exact hrun
+    · exact ⟨[.base (.jsonPatch false)], s2, by simp, by simp [LLabel.isOperator], by simp [lrun, h2], hown⟩
+  cases hp : s.base.pending with
+  | none =>
+    obtain ⟨ls, s', hlen, hop, hrun, hrel⟩ := release_from_idle own s hI hp hw hset
+    exact ⟨ls, s', by omega, hop, hrun, hrel⟩
+  | some p =>
+    cases hm : p.merge
+    · obtain ⟨ls, s', hlen, hop, hrun, hrel⟩ := afterJson s hI hw.1 hw.2.1 hset p hp hm
+      exact ⟨ls, s', by omega, hop, hrun, hrel⟩
+    · obtain ⟨s1, h1, hreq, hg1, _, p1, hp1, hm1⟩ := lstep_merge_enabled (own := own) hw.1 hp hm
+      have hI1 : LInv own s1 := linv_step hI (show LGuard (.base .mergePatch) from trivial) h1
+      obtain ⟨ls, s', hlen, hop, hrun, hrel⟩ :=
+        afterJson s1 hI1 hg1 (by rw [hreq.1]; exact hw.2.1) (settled_of_sameReq hreq hset) p1 hp1 hm1
+      refine ⟨.base .mergePatch :: ls, s', by simp; omega, ?_, ?_, hrel⟩
+      · intro l hl
+        rcases List.mem_cons.mp hl with rfl | hl
+        · rfl
+        · exact hop l hl
+      · simp only [lrun, h1, Option.bind_some]; exact hrun
+
+/-- The exclusion of no-op patches in `LGuard` is necessary (finding F7 in the model): a daemon is still
+exiting when the deletion is requested; the cycles return delays but their patch has dict content that
+changes nothing, so neither a sleep nor an event follows; the daemon exits — and the object waits, settled,
+with NO enabled step of the operator: nothing will ever release it. -/
+theorem lost_wakeup_witness (own : String) :
+    ∃ s, LReach own s ∧ Waiting own s.base ∧ Settled s.base ∧
+      ∀ l, LLabel.isOperator l = true → lstep own s l = none := by
+  let b0 : State := { w0 with matchDel := false, matchDmn := true }
+  let s0 : LState := { base := b0, events := 1, sleeping := false, cycDelays := false, cycMerge := false, cycChanges := false }
+  let noop : Env := { quiet with merge := true }
+  let ls : List LLabel := [.base (.decide quiet), .base (.jsonPatch false), .base .mark,
+    .base (.decide noop), .base .mergePatch, .base (.jsonPatch false),
+    .base (.decide noop), .base .mergePatch, .base (.jsonPatch false), .base (.daemonExits false)]
+  have hrun : lrun own s0 ls = some
+      { base := { b0 with marked := true, fins := [own], rv := 2, dmnLive := false },
+        events := 0, sleeping := false, cycDelays := true, cycMerge := true, cycChanges := false } := by
+    simp [ls, s0, b0, noop, lrun, lstep, step, stepDecide, stepJson, stepMerge, stepMark, w0, quiet, decision, inputs,
+      Decision.fns, mustBlockG, addG, removeG, earlyG, releaseG, applyFns, Fn.apply, blockDeletion, sleepsAfter]
+  have hreach : ∀ (ls : List LLabel) (s s' : LState), LReach own s → lrun own s ls = some s' → LReach own s' := by
+    intro ls
+    induction ls with
+    | nil => intro s s' h hr; simp [lrun] at hr; subst hr; exact h
+    | cons l ls ih =>
+      intro s s' h hr
+      simp only [lrun] at hr
+      cases hst : lstep own s l with
+      | none => simp [hst] at hr
+      | some s1 => simp [hst] at hr; exact ih s1 s' (LReach.step h hst) hr
+  refine ⟨_, hreach ls s0 _ (LReach.init ?_) hrun, ?_, ?_, ?_⟩
+  · exact ⟨⟨rfl, rfl, rfl, rfl, rfl, rfl, rfl⟩, rfl, rfl, rfl, rfl, rfl⟩
+  · exact ⟨rfl, rfl, by simp⟩
+  · exact ⟨fun h => (by cases h), rfl⟩
+  · intro l hl
+    cases l with
+    | touch => simp [lstep]
+    | base bl =>
+      cases bl <;> simp [LLabel.isOperator] at hl <;> simp [lstep, step, stepMerge, stepJson, b0, w0]
 
 /-- Added in the first cycle that sees an unmarked object without the finalizer while a
 finalizer-requiring handler matches it — whatever is carried, whatever the timing. -/
@@ -405,14 +496,6 @@ theorem remove_on_mismatch (own : String) (s : State) (e : Env)
     intro heq; rw [heq] at htarget; exact htarget hown
   simp only [afterCycle, hne, if_false]
   exact ⟨htarget, filter_applyFns own _ _⟩
-
-theorem arm_bool : ∀ (matchDel matchDmn delDone dmnLive dmnForever marked blocked cons memEmpty otherChanging otherDelays delReset : Bool),
-    ((decision (inputsB matchDel matchDmn delDone dmnLive dmnForever marked blocked cons memEmpty otherChanging otherDelays delReset)).add = true →
-      (matchDel || (matchDmn && !dmnForever)) = true ∧ blocked = false ∧ marked = false) ∧
-    (((decision (inputsB matchDel matchDmn delDone dmnLive dmnForever marked blocked cons memEmpty otherChanging otherDelays delReset)).removeUnneeded
-      || (decision (inputsB matchDel matchDmn delDone dmnLive dmnForever marked blocked cons memEmpty otherChanging otherDelays delReset)).release) = true →
-      blocked = true ∧ ((matchDel || (matchDmn && !dmnForever)) = false ∨ marked = true)) := by
-  decide
 
 /-- …and only then: the block queues an addition only when something requires the finalizer on the
 object it sees, and a removal only when nothing does or the object is released. -/
@@ -490,5 +573,25 @@ example : run "k" { w0 with fins := ["a"] } (cycleLabels { quiet with merge := t
     some { w0 with fins := ["a", "k"], rv := 1 } := by decide
 example : run "k" { w0 with fins := ["a", "k", "b"], matchDel := false } (cycleLabels quiet) =
     some { w0 with fins := ["a", "b"], matchDel := false, rv := 1 } := by decide
+
+/-- The hypotheses of `no_lost_wakeup` / `released_under_fairness` are met on a guarded-reachable state of
+the wake-up layer: finalizer added, deletion requested, the handler finished — two events queued. -/
+example : ∃ s, LReachG "k" s ∧ Waiting "k" s.base ∧ Settled s.base ∧ s.events = 2 := by
+  let mk (b : State) (n : Nat) : LState :=
+    { base := b, events := n, sleeping := false, cycDelays := false, cycMerge := false, cycChanges := false }
+  have s0 : LReachG "k" (mk w0 1) := LReachG.init ⟨⟨rfl, rfl, rfl, rfl, rfl, rfl, rfl⟩, rfl, rfl, rfl, rfl, rfl⟩
+  have s1 := LReachG.step (l := .base (.decide quiet)) s0 (by intro h; cases h)
+    (s' := mk { w0 with pending := some ⟨[Fn.block], 0, [], false⟩ } 0) (by decide)
+  have s2 := LReachG.step (l := .base (.jsonPatch false)) s1 rfl (s' := mk { w0 with fins := ["k"], rv := 1 } 1) (by decide)
+  have s3 := LReachG.step (l := .base .mark) s2 trivial (s' := mk { w0 with fins := ["k"], rv := 2, marked := true } 2) (by decide)
+  have s4 := LReachG.step (l := .base .handlerFinishes) s3 trivial
+    (s' := mk { w0 with fins := ["k"], rv := 2, marked := true, delDone := true } 2) (by decide)
+  exact ⟨_, s4, ⟨rfl, rfl, by decide⟩, ⟨fun _ => rfl, rfl⟩, rfl⟩
+
+/-- `delDone` is not sticky: a pass that re-schedules the deletion handler (its record was purged) makes
+the object require the finalizer again — and queues no release. -/
+example : run "k" { w0 with fins := ["k"], rv := 2, marked := true, delDone := true } [.decide { quiet with delReset := true }] =
+    some { w0 with fins := ["k"], rv := 2, marked := true, delDone := false,
+                   pending := some ⟨[], 2, ["k"], false⟩ } := by decide
 
 end Kopf.C06
